@@ -138,10 +138,45 @@ example :
     (match (raceWriteNewTerm Cfg.good false w 0 7 2).2 with | .ok h => decide (h = (1, 0)) | .error _ => false) = true ∧
     headOf (getNode (raceWriteNewTerm Cfg.good false w 0 7 2).1 0).log = (1, 1) := by decide
 
+/-- **C04 (h)** the same for a follower that is fenced while an appended entry waits for its sync goroutine:
+    with the WAL synced before the head is read (fact), the reported head is the end of the log -/
+theorem C04_follower_reported_head_is_final (cfg : Cfg) (w : World) (l f id : Nat) (t : Int) (h : Int × Int)
+    (hok : (raceAppendNewTerm cfg true w l f id t).2 = some (.ok h)) :
+    h = headOf (getNode (raceAppendNewTerm cfg true w l f id t).1 f).log := by
+  unfold raceAppendNewTerm at hok ⊢
+  by_cases hc : (getNode w l).ctrl ≠ .leaderC ∨ (getNode w l).status ≠ .leader ∨ (getNode w f).ctrl ≠ .followerC
+  · rw [if_pos hc] at hok; cases hok
+  · rw [if_neg hc] at hok ⊢
+    simp only [] at hok ⊢
+    by_cases hc2 : (getNode (write cfg w l id).1 f).log.getLast? ≠ some { term := (getNode (write cfg w l id).1 l).term, id := id } ∨
+        (getNode (write cfg w l id).1 f).term ≠ (getNode (write cfg w l id).1 l).term
+    · rw [if_pos hc2] at hok; cases hok
+    · rw [if_neg hc2] at hok ⊢
+      simp only [if_true, Option.some.injEq] at hok ⊢
+      generalize hw2 : setNode (write cfg w l id).1 l _ = w2 at hok ⊢
+      have hf : f < w2.nodes.length := by
+        apply Classical.byContradiction
+        intro hno
+        unfold newTerm at hok
+        rw [if_pos (by omega)] at hok
+        cases hok
+      rcases C04_newterm_fences w2 f t h hf hok with ⟨_, _, h3, h4, _⟩ | ⟨_, _, h3, h4, _⟩ <;> rw [h3, h4]
+
+/-- necessity (the defect this check found, D-48, repaired): without the sync the entry becomes visible after
+    the head was reported -/
+theorem C04_follower_head_lags_without_sync :
+    let w : World := { nodes := [
+      { ctrl := .leaderC, term := 1, status := .leader, log := [⟨1, 0⟩], rf := 3, commit := 0, cursors := [(1, 0), (2, 0)] },
+      { ctrl := .followerC, term := 1, status := .follower, log := [⟨1, 0⟩] },
+      { ctrl := .followerC, term := 1, status := .follower, log := [⟨1, 0⟩] }] }
+    (match (raceAppendNewTerm Cfg.good false w 0 1 7 2).2 with | some (.ok h) => decide (h = (1, 0)) | _ => false) = true ∧
+    headOf (getNode (raceAppendNewTerm Cfg.good false w 0 1 7 2).1 1).log = (1, 1) := by decide
+
 theorem C04_on_tree : Facts.newTermRejectsLowerAndPersistsFirst = true ∧ Facts.newTermWaitsForInFlightAppends = true ∧
     Facts.writeChecksLeaderStatusBeforeAlloc = true ∧ Facts.writeHoldsAppendLockAcrossAllocAndAppend = true ∧
     Facts.followerAppendChecksTermAlways = true ∧ Facts.followerTruncateOnlyWhenFenced = true ∧
     Facts.snapshotChunkTermMustEqual = true ∧ Facts.lateRequestCannotConvertLeader = true ∧
-    Facts.becomeLeaderOnlyFromFencedSameTerm = true := by decide
+    Facts.becomeLeaderOnlyFromFencedSameTerm = true ∧ Facts.followerNewTermSyncsWalBeforeHead = true ∧
+    Facts.leaderNewTermSyncsWalBeforeHead = true := by decide
 
 end Oxia.C04
